@@ -237,6 +237,10 @@ def run(ctx):
         st = [i for i in fxa.insts if i.cls == "Status" and i.call is not None and i.call.args and
               norm(i.call.args[0]) == f"masters[{idx}]"]
         ok = a.v.endswith(".ongoing") and bool(st) and a.v.split(".")[0] == st[0].name
+        if not ok and a.v.endswith(".ongoing"):
+            # statuses = [Status(m) for m in masters]; request[i] <- statuses[i].ongoing
+            call = q.elem_call(fxa, a.v[:-len(".ongoing")])
+            ok = call is not None and norm(call.func) == "Status" and len(call.args) == 1 and norm(call.args[0]) == f"masters[{idx}]"
         ctx.ob("P3", PACKET, "Arbiter", "request[i] <- Status(masters[i]).ongoing", ok,
                "" if ok else f"request[{idx}] <= {a.v}; Status instances: {[norm(i.call.args[0]) for i in fxa.insts if i.cls == 'Status' and i.call and i.call.args]}", a.line)
     n = 0
